@@ -54,6 +54,8 @@ def run(ctx):
     # use must not depend on what that first call looked like
     for k0 in (0, 1, 2, 3, 4, 7, 8, 15, 16, 17, 63):
         jobs.append((exe_asan, ['first', k0, ctx.seed * 61 + k0]))
+    # the accumulator inside the buffer (nothing forbids it: the two parameters are not restrict-qualified)
+    jobs.append((exe_asan, ['alias', ctx.seed * 67, 20000]))
     # long buffers (the length itself is an input of the routine: 2^k boundaries, multiples of 65536, pieces > 65535)
     for i in range(4 if ctx.tier == 'quick' else 16):
         jobs.append((exe_fast, ['long', ctx.seed * 77 + i, 22 if ctx.tier == 'quick' else 26]))
@@ -67,7 +69,7 @@ def run(ctx):
         jobs.append((exe_fast, ['huge', ctx.seed * 89, (1 << 32)]))
     with ThreadPoolExecutor(max_workers=16) as ex:
         results = list(ex.map(lambda j: (j, _run(*j)), jobs))
-    tot = {'pairs': 0, 'pairs2': 0, 'random': 0, 'long': 0, 'huge': 0, 'echo': 0, 'zeros': 0, 'first': 0}
+    tot = {'pairs': 0, 'pairs2': 0, 'random': 0, 'long': 0, 'huge': 0, 'echo': 0, 'zeros': 0, 'first': 0, 'alias': 0}
     splits = 0
     for (exe, args), r in results:
         if r.returncode == -999:
@@ -98,13 +100,13 @@ def run(ctx):
     if tot['pairs'] != expect_pairs:
         raise core.HarnessFailure('pairs enumerated %d != 2^24' % tot['pairs'])
     # check value through the library itself, via a one-off random-mode equivalent: done in harness 'random'
-    ctx.cov['evaluations'] = tot['pairs'] + tot['pairs2'] + tot['random'] + tot['long'] + tot['huge'] + tot['echo'] + tot['zeros'] + tot['first']
+    ctx.cov['evaluations'] = tot['pairs'] + tot['pairs2'] + tot['random'] + tot['long'] + tot['huge'] + tot['echo'] + tot['zeros'] + tot['first'] + tot['alias']
     ctx.cov['distinct_nontrivial'] = tot['pairs'] + tot['pairs2']   # enumerated spaces: all distinct by construction
     ctx.cov['exhaustive'] = True
     ctx.cov['rule'] = ('all 2^16 states x 2^8 bytes enumerated (distinct by construction, every one non-trivial: a table '
                        'lookup is exercised); two-byte inputs: %s; random buffers (len 0..4096, misalignment 0..7, initial '
                        'state 0 or random) compared whole / every 2-split (len<=40) / random k-split incl. empty pieces; '
-                       'fresh processes whose first call has 0..3 (and other) bytes; all-zero buffers of 2^31 and 2^32 bytes (thorough: to 2^33) against an analytic reference; empty pieces as (NULL,0) and (pointer,0) from every state and inside random splits; state-echo buffers (all 2^16 states x prefix 0..7 x data making state^data one of 7 special words x 00/FF fill); long buffers up to 2^%d bytes in one call%s; distinct_nontrivial counts only the enumerated (state,input) pairs'
+                       'the accumulator lying inside the buffer; fresh processes whose first call has 0..3 (and other) bytes; all-zero buffers of 2^31 and 2^32 bytes (thorough: to 2^33) against an analytic reference; empty pieces as (NULL,0) and (pointer,0) from every state and inside random splits; state-echo buffers (all 2^16 states x prefix 0..7 x data making state^data one of 7 special words x 00/FF fill); long buffers up to 2^%d bytes in one call%s; distinct_nontrivial counts only the enumerated (state,input) pairs'
                        % ('all 2^32 (state, 2 bytes)' if ctx.tier == 'thorough' else 'states 0..255 x 2^16',
                           22 if ctx.tier == 'quick' else 26, ' and two of 2^32(+17) bytes' if ctx.tier == 'thorough' else ''))
     ctx.cov['state_byte_pairs'] = tot['pairs']
